@@ -58,6 +58,10 @@ func one(r *hx.Run, adv uint32, initCol int, version string) error {
 	fc := fakeconsole.New(10, 4, caps)
 	fc.InitCol = initCol
 	fc.VersionString = version
+	fc.NegativeTcap = (adv>>3^uint32(initCol))%3 == 0 // some terminals answer unknown capabilities explicitly
+	if fc.NegativeTcap {
+		r.Count("negative-tcap-replies")
+	}
 	fc.XPix, fc.YPix = 100, 80
 	vx, err := vaxis.New(vaxis.Options{WithConsole: fc, NoSignals: true})
 	if err != nil {
